@@ -51,6 +51,45 @@ def main():
         import pyx2py
         pyx_info = pyx2py.tie(V, str(common.REPO), common.rng_for(args.seed, "pyx"))
 
+    # 2a'. C13: the position arithmetic of pyramid.py is TRANSLATED into Gallina on every build
+    #      (harness/py2coq.py -> Generated/PyramidSrc.v, proofs in Proofs/PyramidSrcP.v).  bin/build
+    #      translates /repo; when the tree under test is a scratch copy (TOASTY_REPO), translate it
+    #      here and check the same proofs against it privately.
+    translated = None
+    if pid == "C13":
+        import hashlib
+        import py2coq
+        try:
+            text = py2coq.translate_pyramid(common.REPO)
+            translated = dict(functions=py2coq.PYRAMID_FUNCS, sha256=hashlib.sha256(text.encode()).hexdigest()[:16])
+            tree_file = common.COQ / "theories" / "Generated" / "PyramidSrc.v"
+            if not tree_file.exists() or tree_file.read_text() != text:
+                w = common.workdir() / "gen"
+                (w / "Generated").mkdir(parents=True, exist_ok=True)
+                (w / "Proofs").mkdir(parents=True, exist_ok=True)
+                (w / "Generated" / "PyramidSrc.v").write_text(text)
+                proof = (common.COQ / "theories" / "Proofs" / "PyramidSrcP.v").read_text()
+                proof = proof.replace("From Toasty Require Import Model.Quadtree Model.Study Generated.PyramidSrc.",
+                                      "From Toasty Require Import Model.Quadtree Model.Study.\nFrom ToastyAlt Require Import Generated.PyramidSrc.")
+                (w / "Proofs" / "PyramidSrcP.v").write_text(proof)
+                log = ""
+                ok = True
+                for f in (w / "Generated" / "PyramidSrc.v", w / "Proofs" / "PyramidSrcP.v"):
+                    rc, so, se = common.coqc_file(f, extra_q=[(w, "ToastyAlt")])
+                    if rc != 0:
+                        ok, log = False, (so + se)[-1500:]
+                        break
+                translated["checked"] = "privately (tree under test differs from /repo)"
+                if not ok:
+                    V.disagreement("translation tie: pyramid.py as translated by harness/py2coq.py no longer agrees with the "
+                                   "hand-written position algebra (Proofs/PyramidSrcP.v)", dict(part="translated-source", log=log),
+                                   "every lemma of PyramidSrcP.v checks against the translated source", "a proof no longer checks", None)
+            else:
+                translated["checked"] = "by the build (Properties/C13.vo depends on Generated/PyramidSrc.v)"
+        except py2coq.Unsupported as e:
+            V.disagreement("translation tie: toasty/pyramid.py left the subset harness/py2coq.py translates",
+                           dict(part="translated-source", error=str(e)), "translatable position arithmetic", str(e), None)
+
     # 2c. answers of the TOAST geometry API must not depend on the calls made before
     hist_calls = None
     if pid in ("C04", "C05", "C06", "C12"):
@@ -109,6 +148,8 @@ def main():
     coverage.update(cov)
     if pyx_info is not None:
         coverage["pyx_tie"] = pyx_info
+    if translated is not None:
+        coverage["translated_source"] = translated
     if hist_calls is not None:
         coverage["history_independence_probe_calls"] = hist_calls
     if args.tier == "thorough":
